@@ -1160,7 +1160,10 @@ supla_esp_gpio_is_fb(supla_roller_shutter_cfg_t *rs_cfg) {
 
 void GPIO_ICACHE_FLASH supla_esp_gpio_rs_apply_new_config(
     int channel_number, TChannelConfig_RollerShutter *rsConfig) {
-  if (channel_number < 0 || channel_number >= RS_MAX_COUNT) {
+  if (channel_number < 0 || channel_number >= RS_MAX_COUNT ||
+      supla_rs_cfg[channel_number].up == NULL ||
+      supla_rs_cfg[channel_number].down == NULL) {
+    // not a roller shutter of this device
     return;
   }
   bool saveConfig = false;
@@ -1189,10 +1192,13 @@ void GPIO_ICACHE_FLASH supla_esp_gpio_rs_apply_new_config(
     bool oldButtonsUpsideDown = (supla_esp_cfg.ButtonsUpsideDown) != 0;
     if (newButtonsUpsideDown != oldButtonsUpsideDown) {
       supla_esp_cfg.ButtonsUpsideDown = (newButtonsUpsideDown ? 1 : 0);
-      int newUpButtonGpio = supla_input_cfg[(2 * channel_number) + 1].gpio_id;
-      int newDownButtonGpio = supla_input_cfg[(2 * channel_number)].gpio_id;
-      supla_input_cfg[(2 * channel_number)].gpio_id = newUpButtonGpio;
-      supla_input_cfg[(2 * channel_number) + 1].gpio_id = newDownButtonGpio;
+      if ((2 * channel_number) + 1 < INPUT_MAX_COUNT) {
+        int newUpButtonGpio =
+            supla_input_cfg[(2 * channel_number) + 1].gpio_id;
+        int newDownButtonGpio = supla_input_cfg[(2 * channel_number)].gpio_id;
+        supla_input_cfg[(2 * channel_number)].gpio_id = newUpButtonGpio;
+        supla_input_cfg[(2 * channel_number) + 1].gpio_id = newDownButtonGpio;
+      }
       supla_log(LOG_DEBUG, "RS[%d] buttons upside down %d", channel_number,
                 newButtonsUpsideDown);
       saveConfig = true;
@@ -1235,7 +1241,10 @@ void GPIO_ICACHE_FLASH supla_esp_gpio_rs_apply_new_config(
 
 void GPIO_ICACHE_FLASH supla_esp_gpio_fb_apply_new_config(
     int channel_number, TChannelConfig_FacadeBlind *fbConfig) {
-  if (channel_number < 0 || channel_number >= RS_MAX_COUNT) {
+  if (channel_number < 0 || channel_number >= RS_MAX_COUNT ||
+      supla_rs_cfg[channel_number].up == NULL ||
+      supla_rs_cfg[channel_number].down == NULL) {
+    // not a facade blind of this device
     return;
   }
   supla_log(LOG_DEBUG, "FB[%d] new config: mud %d, bud %d, ot %d, ct %d, "
@@ -1270,10 +1279,13 @@ void GPIO_ICACHE_FLASH supla_esp_gpio_fb_apply_new_config(
     bool oldButtonsUpsideDown = (supla_esp_cfg.ButtonsUpsideDown) != 0;
     if (newButtonsUpsideDown != oldButtonsUpsideDown) {
       supla_esp_cfg.ButtonsUpsideDown = (newButtonsUpsideDown ? 1 : 0);
-      int newUpButtonGpio = supla_input_cfg[(2 * channel_number) + 1].gpio_id;
-      int newDownButtonGpio = supla_input_cfg[(2 * channel_number)].gpio_id;
-      supla_input_cfg[(2 * channel_number)].gpio_id = newUpButtonGpio;
-      supla_input_cfg[(2 * channel_number) + 1].gpio_id = newDownButtonGpio;
+      if ((2 * channel_number) + 1 < INPUT_MAX_COUNT) {
+        int newUpButtonGpio =
+            supla_input_cfg[(2 * channel_number) + 1].gpio_id;
+        int newDownButtonGpio = supla_input_cfg[(2 * channel_number)].gpio_id;
+        supla_input_cfg[(2 * channel_number)].gpio_id = newUpButtonGpio;
+        supla_input_cfg[(2 * channel_number) + 1].gpio_id = newDownButtonGpio;
+      }
       supla_log(LOG_DEBUG, "FB[%d] buttons upside down %d", channel_number,
           newButtonsUpsideDown);
       saveConfig = true;
